@@ -447,7 +447,7 @@ def shape_equality(ctx, rule="R15.2"):
         for a in conj(t, []):
             if isinstance(a, tuple) and a[0] == "bin" and a[1] == "Eq":
                 l, r = a[2], a[3]
-                if isinstance(l, tuple) and isinstance(r, tuple) and l and r and l[0] == "vec" and r[0] == "vec":
+                if isinstance(l, tuple) and isinstance(r, tuple) and l and r and l[0] == r[0] and l[0] in ("vec", "tup"):       # element-wise / component-wise equality
                     if len(l[1]) != len(r[1]):
                         out.append(("lit", "false"))
                     else:
